@@ -1227,9 +1227,11 @@ def run(tier, replay=None):
   import itertools
   fam_r = common.rng('c05-chain')
   stats['chain_family_orders'] = 0
-  for inst in range(3 if tier == 'quick' else 40):
+  for inst in range(6 if tier == 'quick' else 60):
     depth = fam_r.choice([1, 2, 2, 3])
-    lit_a, lit_b = fam_r.choice([('1', '"a"'), ('"s"', '2'), ('true', '"t"'), ('3', 'true')])
+    lit_a, lit_b = fam_r.choice([('1', '"a"'), ('"s"', '2'), ('true', '"t"'), ('3', 'true'),
+                                 ('[1, 2]', '["a"]'), ('["s"]', '[2]'), ('{a: 1}', '{a: "s"}'), ('[[1]]', '[["a"]]'),
+                                 ('[{a: 1}]', '[{a: "s"}]')])
     names = ['Ca%d' % i for i in range(depth + 1)]
     stmts = ['%s(%s);' % (names[0], lit_a)]
     for i in range(depth):
@@ -1246,7 +1248,8 @@ def run(tier, replay=None):
       fc = full_check(text, [names[0]], compile_preds=False)
       stats['chain_family_orders'] += 1
       if fc['status'] != 'TypeError':
-        report('chain-clash:%s' % ('accepted' if fc['status'] == 'ok' else fc['status']),
+        cat = 'record' if '{' in lit_a else ('list' if '[' in lit_a else 'scalar')
+        report('chain-clash:%s%s' % ('' if cat == 'scalar' else cat + ':', 'accepted' if fc['status'] == 'ok' else fc['status']),
                {'kind': 'reject', 'text': text, 'observed': fc,
                 'law': '(b) a predicate forced to two different ground types (here through a chain of rules) is '
                        'rejected with a type error, whatever the order of the rules'})
